@@ -546,15 +546,58 @@ def run(ctx):
         else:
             why = "; ".join(w for w, c in (("the descent is not guarded by `part in tree`", not guarded), ("an iteration can continue without descending", skips),
                                           ("the loop can be left early", early), ("the walk does not start from WHITELIST_TREE", not from_tree)) if c)
+    # the walk may live in a helper the method asks (`if not tree_contains(path): raise`): the helper then walks as above, answers with a falsy
+    # constant from inside the loop when a part is missing and with a truthy value after the loop, and the return is under the helper's answer
+    helper_ok = {}
+    if good_loop is None:
+        for hc in calls_in(dga):
+            hr = prog.resolve_expr(base, hc.func) if isinstance(hc.func, (ast.Name, ast.Attribute)) else None
+            if not (isinstance(hr, DefRef) and isinstance(hr.node, ast.FunctionDef)) or len(hc.args) != 1 or hr.node is dga:
+                continue
+            hf = hr.node
+            hcfg = CFG(hf)
+            for hl in [n for n in hcfg.stmt_nodes() if n.kind == "for"]:
+                lp = hl.ast
+                if not (isinstance(lp.target, ast.Name) and isinstance(lp.iter, ast.Call) and isinstance(lp.iter.func, ast.Attribute) and lp.iter.func.attr == "split"
+                        and norm(lp.iter.func.value) == (func_params(hf) or [None])[0]):
+                    continue
+                pv = lp.target.id
+                desc = [st for st in ast.walk(lp) if isinstance(st, ast.Assign) and len(st.targets) == 1 and isinstance(st.targets[0], ast.Name) and isinstance(st.value, ast.Subscript)
+                        and norm(st.value.value) == st.targets[0].id and norm(st.value.slice) == pv]
+                if len(desc) != 1:
+                    continue
+                dn = hcfg.node_of(desc[0])
+                tv = desc[0].targets[0].id
+                g_ = logic.implies(logic.facts_as_premises(hcfg.facts_at(dn.id)), logic.parse(f"{pv} in {tv}"))
+                b_ids = {hcfg.node_of(x).id for st in lp.body for x in ast.walk(st) if isinstance(x, ast.stmt) and hcfg.node_of(x) is not None}
+                sk_ = any(s_ in b_ids and s_ != dn.id and hl.id in hcfg.reachable(s_, avoid=lambda n: n.id == dn.id) for s_, _ in hcfg.succ[hl.id])
+                init_ = [hcfg.nodes[d].ast for d in hcfg.reaching_defs(tv).get(hl.id, set()) if d not in b_ids and hcfg.nodes[d].ast is not None]
+                ft_ = bool(init_) and all(isinstance(a, ast.Assign) and norm(a.value) == "WHITELIST_TREE" for a in init_)
+                in_loop = [r for r in ast.walk(lp) if isinstance(r, ast.Return)]
+                after = [r for r in walk_no_nested(hf) if isinstance(r, ast.Return) and not any(r is x for x in in_loop)]
+                falsy_inside = bool(in_loop) and all(isinstance(r.value, ast.Constant) and not r.value.value for r in in_loop)
+                truthy_after = bool(after) and all((isinstance(r.value, ast.Constant) and r.value.value is True) or norm(r.value) == tv for r in after)
+                if g_ and not sk_ and ft_ and falsy_inside and truthy_after:
+                    helper_ok[norm(hc)] = (hc, norm(hc.args[0]), any(norm(r.value) == tv for r in after))
     for rn in rets:
-        ctx.check(good_loop is not None and dcfg.dominates(good_loop.id, rn.id), "R6.4",
+        via_helper = False
+        if good_loop is None and helper_ok:
+            prem_r = logic.facts_as_premises(dcfg.facts_at(rn.id))
+            for ctext, (hc, arg, returns_node) in helper_ok.items():
+                if logic.implies(prem_r, logic.parse(ctext)) or logic.implies(prem_r, logic.parse(f"{ctext} is not None")):
+                    via_helper = True
+                    walked = arg
+        ctx.check((good_loop is not None and dcfg.dominates(good_loop.id, rn.id)) or via_helper, "R6.4",
                   "DynamicFieldtypeModule.__getattr__:return", f"a child module object is returned without walking WHITELIST_TREE ({why})",
                   rn.ast, "the WHITELIST_TREE walk (raise on unknown part) dominates the return")
+        if via_helper and isinstance(rn.ast.value, ast.Call) and rn.ast.value.args:
+            ctx.check(norm(rn.ast.value.args[0]) == walked, "R6.4", "DynamicFieldtypeModule.__getattr__:child-path", f"the child is built for `{norm(rn.ast.value.args[0])}`, the walk validated `{walked}`",
+                      rn.ast, "the child module carries exactly the path that was walked")
         if good_loop is not None and isinstance(rn.ast.value, ast.Call) and rn.ast.value.args:
             ctx.check(norm(rn.ast.value.args[0]) == walked, "R6.4", "DynamicFieldtypeModule.__getattr__:child-path", f"the child is built for `{norm(rn.ast.value.args[0])}`, the walk validated `{walked}`",
                       rn.ast, "the child module carries exactly the path that was walked")
     tree_reads = [n for n in ast.walk(dga) if isinstance(n, ast.Name) and n.id == "WHITELIST_TREE"]
-    ctx.check(bool(tree_reads), "R6.4", "DynamicFieldtypeModule.__getattr__:tree", "WHITELIST_TREE is no longer consulted", dga,
+    ctx.check(bool(tree_reads) or bool(helper_ok), "R6.4", "DynamicFieldtypeModule.__getattr__:tree", "WHITELIST_TREE is no longer consulted", dga,
               "walk starts from WHITELIST_TREE")
 
     # ------------------------------------------------------------------ R6.5 inventory of dynamic code sites
